@@ -33,6 +33,8 @@ type quotaSpec struct {
 	// mixed hierarchy: the internal limit under the concurrency quota is a (practically unlimited)
 	// fixed-window quota and the flow's limiter points at it; only the parent bounds the in-flight number
 	ChildFixed bool `json:"child_is_fixed_window,omitempty"`
+	// Grand: a third level - root quota qg (max 1000, never the bottleneck) above qp above qc, limiter on qc
+	Grand bool `json:"grandparent,omitempty"`
 }
 
 type op struct {
@@ -56,7 +58,11 @@ var t0 = time.Date(2026, 3, 1, 12, 0, 0, 250_000_000, time.UTC)
 
 func quotaYAML(q quotaSpec) string {
 	var sb strings.Builder
-	if q.ParentMax > 0 {
+	if q.ParentMax > 0 && q.Grand {
+		fmt.Fprintf(&sb, "quotas:\n  - id: qg\n    filter:\n      url: a.com/*\n    strategy:\n      concurrent:\n        max_request_count: 1000\n        request_expiration_sec: %d\n        gc_interval_sec: %d\n", q.ExpireS, q.GCS)
+		fmt.Fprintf(&sb, "internal_limits:\n  - id: qp\n    parent_id: qg\n    filter:\n      method: [\"GET\"]\n    strategy:\n      concurrent:\n        max_request_count: %d\n        request_expiration_sec: %d\n        gc_interval_sec: %d\n", q.ParentMax, q.ExpireS, q.GCS)
+		fmt.Fprintf(&sb, "  - id: qc\n    parent_id: qp\n    strategy:\n      concurrent:\n        max_request_count: %d\n        request_expiration_sec: %d\n        gc_interval_sec: %d\n", q.Max, q.ExpireS, q.GCS)
+	} else if q.ParentMax > 0 {
 		fmt.Fprintf(&sb, "quotas:\n  - id: qp\n    filter:\n      url: a.com/*\n    strategy:\n      concurrent:\n        max_request_count: %d\n        request_expiration_sec: %d\n        gc_interval_sec: %d\n", q.ParentMax, q.ExpireS, q.GCS)
 		if q.ChildFixed {
 			sb.WriteString("internal_limits:\n  - id: qc\n    parent_id: qp\n    strategy:\n      fixed_window:\n        max: 100000000\n        interval: 1\n        interval_unit: hour\n")
@@ -164,6 +170,9 @@ func genQuota(r *sim.Rand) quotaSpec {
 	if q.ParentMax > 0 && q.LimiterOn == "qc" && r.Chance(1, 3) {
 		q.ChildFixed = true
 	}
+	if q.ParentMax > 0 && q.LimiterOn == "qc" && !q.ChildFixed && !q.SecondLimiter && r.Chance(1, 2) {
+		q.Grand = true
+	}
 	return q
 }
 
@@ -186,6 +195,9 @@ func (q quotaSpec) cap() int {
 func (q quotaSpec) loops() int {
 	if q.ChildFixed {
 		return 1
+	}
+	if q.Grand {
+		return 3
 	}
 	if q.ParentMax > 0 {
 		return 2
